@@ -120,8 +120,10 @@ func originFixed(prefix string) bool {
 
 // locate judges where untrusted markers ended up in out (complete or partial output).
 func locate(out string) string {
-	for _, scripting := range []bool{false, true} {
-		r := htmltok.Tokenize([]byte(out), htmltok.Options{Scripting: scripting})
+	// (with and without scripting; with and without the foreign-content rule for svg / math, inside which script,
+	// style, title and textarea do not switch the tokenizer)
+	for k := 0; k < 4; k++ {
+		r := htmltok.Tokenize([]byte(out), htmltok.Options{Scripting: k&1 == 1, Foreign: k&2 == 2})
 		for _, t := range r.Tokens {
 			switch t.Kind {
 			case htmltok.Text:
@@ -327,6 +329,13 @@ var codeShapes = []string{
 	`{{define "h"}}type="b"{{end}}<script type="b" {{template "h"}}></script>{{if .C}}<script type="text/plain" {{template "h"}}>{{else}}<script type="b">{{end}}{{.V}}</script>`,
 	// (former K-mangle case, F-openprefix) a helper with an action, called inside the still open rel value of two links
 	`{{define "hq"}}" href="{{.V}}{{end}}<link rel="icon{{template "hq" .}}"><link rel="stylesheet{{template "hq" .}}">`,
+	// the end tag of a script / style element split by a template node (F-endtagsplit); raw-text elements inside svg /
+	// math, where browsers read their content as markup (F-foreignraw); quotes in a tag name continued after a
+	// template node (F-namequote)
+	`<script>var x = 1;</scr{{if .F}}{{end}}ipt><img src="x" onerror="1//</script>@@">`, `<style>p{}<{{if .F}}{{end}}/style><iframe srcdoc="</style>@@"></iframe>`,
+	`{{define "gt"}}>{{end}}<script>var x = 1;</script{{template "gt"}}<img src="x" onerror="1//</script>@@">`, `<script>a</scr{{if .C}}ipt>{{else}}ipt>{{end}}<img src="x" onerror="1//</script>@@">`,
+	`<svg><style><img src="x" onerror="1//</style>@@"></svg>`, `<svg><script><img src="x" onerror="1//</script>@@"></svg>`, `<math><style><p><iframe srcdoc="</style>@@"></iframe></math>`, `<svg><style><!-- "</style>@@ --></svg>`,
+	`<img{{if .F}}{{end}}x="</a tabindex=1 autofocus onfocus="1>/*<b>*/@@">`, `<p>a</p{{if .F}}{{end}}x="><script>/*">*/@@</script>`,
 	// text after a template node continues the name of an END tag (F-endtagname)
 	`<bdi>a</b{{if .C}}data-x="@@"{{end}}di>`, `<button {{range .L2}}data-x="@@"></b{{end}}utton>`, `<bdi>a</b{{if .F}}z{{end}}data-x="@@">`,
 	// "/" and "=" in an end tag: what the engine reads as a quoted value is not one for a browser
